@@ -48,6 +48,10 @@ def line_dense_logits(seed, frames, nsym, amb, value_range='std'):
                 x[t] += 63.0
             else:
                 x[t] = rs.uniform(-63.0, -54.0, size=nsym + 1)
+    if value_range == 'logprob':
+        # a network that emits log-probabilities: the winner of a confident frame sits at about -1e-9
+        x = x * 4.0
+        x = x - np.logaddexp.reduce(x, axis=1)[:, np.newaxis]
     return x.astype(np.float32)
 
 
@@ -111,6 +115,12 @@ def build_layout(page_spec, chars):
     for j, ls in enumerate(page_spec['lines']):
         line = build_line(ls, chars, ls.get('id', 'l%03d' % j), y=40 + 40 * j)
         regions[j % nreg].lines.append(line)
+    if page_spec.get('dup_line') and regions[0].lines:
+        # the same line (same id, same content) listed under two regions: what from_pagexml produces
+        # for nested TextRegions
+        import copy as _copy
+        regions.append(RegionLayout('r%d-nested' % (nreg + 1), regions[0].polygon.copy()))
+        regions[-1].lines.append(_copy.deepcopy(regions[0].lines[0]))
     layout.regions = regions
     return layout
 
